@@ -12,6 +12,16 @@ CHECKS = {
             "Every (value, operation, placement, layout) of a stated finite universe is run through the real create path and the rewritten module is re-executed with inline-snapshot inactive; exhaustive within the bounds, so a wrong literal for any enumerated shape is found, not sampled.",
             "Bounds of the value universe (depth/width, atom list in mc/gen/values.py); Example.run_inline as driver (bound to the real plugin by C19); CPython 3.12, black 26.5.1.",
             "DESIGN.md 5/C01"),
+    "C05": ("model_checking",
+            "explicit-state BFS over (operation, snapshot argument) states with every (observation script, approved subset) action executed as a real session; lock-step conformance with an independent executable model of the category algebra",
+            "States are snapshot arguments, the transition function is the real code (one session per transition), and an independent model predicts reported categories and next state for every transition; reached states are expanded again up to the depth bound, so histories are covered, not single steps.",
+            "Integer/short-string domains, observation scripts of length <= 3, depth bound (quick 2, thorough 3); model rules are DESIGN.md Appendix A.1; run_inline as driver (bound to the plugin by C19).",
+            "DESIGN.md 5/C05, A.1"),
+    "C07": ("exploration",
+            "bounded-exhaustive enumeration of program shape x bad-site position x operation x flag configuration, each a real pytest session, generator-known expected outcome",
+            "Every combination of a small program family with every category subset and reporting mode is run as a real pytest session; the oracle (which tests execute a bad snapshot) is known by construction, so one operation/flag cell that fails to mark the test is found deterministically.",
+            "Program family of mc/checks/c07.py; pytest 9.1.1 on CPython 3.12; outcomes parsed from -rA lines.",
+            "DESIGN.md 5/C07"),
 }
 
 NOT_APPLICABLE = {
